@@ -18,7 +18,7 @@ LEVEL_TEXT = (
     "without reading an unassigned local, and that vectors are cut with the dof counts of the right spaces."
 )
 LEVEL_NOTE = "Receivers whose class cannot be determined statically are skipped (no type checker is available in this sandbox).  Not decided: numerical agreement of expression trees; value-level (as opposed to space-level) ill-typed combinations."
-EXPLANATION = "rules ATTR-RESOLVE, HOMOMORPHISM, COMPAT-GUARD, DEF-ASSIGN, PACKING"
+EXPLANATION = "rules ATTR-RESOLVE, HOMOMORPHISM (incl. blocked combinators and blocked strong form), COMPAT-GUARD, DEF-ASSIGN, PACKING, BLOCK-MATVEC"
 ASSUMPTIONS = ["scipy LinearOperator supplies shape/dtype/matvec plumbing for the discrete operator classes", "operands stored in _op/_op1/_op2 are members of the same class family (they are only ever constructed that way)"]
 
 BO = "bempp_cl/api/assembly/boundary_operator.py"
@@ -105,6 +105,49 @@ def homomorphism(ctx):
         except AnalysisError as e:
             ok, msg = False, str(e)
         r.check(ok, cname + "._assemble", BO, cname + "._assemble", fn.lineno, cname + " weak form term", msg)
+    # blocked combinators: same terms, and the block spaces are taken from the operand that provides them
+    blm = ctx.repo.mod(BL)
+    blspec = {
+        "SumBlockedOperator": (NC.op("W1") + NC.op("W2"), {"range_spaces": "self._op1", "dual_to_range_spaces": "self._op1", "domain_spaces": "self._op1"}),
+        "ScaledBlockedOperator": (al * NC.op("W"), {"range_spaces": "self._op", "dual_to_range_spaces": "self._op", "domain_spaces": "self._op"}),
+        "ProductBlockedOperator": (NC.op("W1") * NC.op("Minv2") * NC.op("W2"), {"range_spaces": "self._op1", "dual_to_range_spaces": "self._op1", "domain_spaces": "self._op2"}),
+    }
+    for cname, (want, spaces) in blspec.items():
+        fn = blm.fn(cname + "._assemble")
+        ev = NCEval(dict(W), morphisms=("weak_form",), calls={"self._op2.strong_form()": NC.op("Minv2") * NC.op("W2")})
+        try:
+            got = ev.ev(_ret(fn))
+            ok, msg = got == want, "%s._assemble builds %r, expected %r" % (cname, got, want)
+        except AnalysisError as e:
+            ok, msg = False, str(e)
+        r.check(ok, cname + "._assemble", BL, cname + "._assemble", fn.lineno, cname + " weak form term", msg)
+        bad = []
+        for prop, src in spaces.items():
+            pf = blm.fn("%s.%s" % (cname, prop))
+            got_s = roles.canon(_ret(pf), roles.Defs(pf)).replace(" ", "")
+            if got_s not in ("tuple(%s.%s)" % (src, prop), "%s.%s" % (src, prop)):
+                bad.append("%s = %s (expected %s.%s)" % (prop, got_s, src, prop))
+        r.check(not bad, cname + " spaces", BL, cname, blm.fn(cname + ".range_spaces").lineno, "%s block spaces %s" % (cname, bad), "; ".join(bad))
+    # blocked strong form: diag(M^-1(range_i, dual_i)) * weak form
+    fn = blm.fn("BlockedOperatorBase.strong_form")
+    bdefs = roles.Defs(fn)
+    Sb = roles.stores(fn.body, bdefs, lv=True)
+    rets = [s for s in Sb if s.op == "return"]
+    diag = [s for s in Sb if s.op == "=" and isinstance(s.tnode, ast.Subscript) and len(s.loops) == 1]
+    okb, whyb = False, "structure not recognised"
+    if len(rets) == 1 and len(diag) == 1 and isinstance(diag[0].loops[0].target, ast.Name):
+        K_ = diag[0].loops[0].target.id
+        ln = diag[0].node.lineno
+        arr = unparse(diag[0].tnode.value)
+        full = roles.canon(diag[0].loops[0].iter, bdefs).replace(" ", "") == "range(len(self.range_spaces))"
+        tgt_ok = diag[0].target == roles.expect("A[K, K]", bdefs, ln, A=arr, K=K_)
+        val_ok = diag[0].value == roles.expect("get_inverse_mass_matrix(self.range_spaces[K], self.dual_to_range_spaces[K])", bdefs, ln, K=K_)
+        pub = [s for s in Sb if s.target == "self._range_map"]
+        pub_ok = len(pub) == 1 and isinstance(pub[0].vnode, ast.Call) and unparse(pub[0].vnode.func) == "BlockedDiscreteOperator" and len(pub[0].vnode.args) == 1 and unparse(pub[0].vnode.args[0]) == arr
+        ret_ok = roles.canon(rets[0].vnode, bdefs, commutative_mult=False).replace(" ", "") == "(self._range_map*self.weak_form())"
+        okb = full and tgt_ok and val_ok and pub_ok and ret_ok
+        whyb = "diagonal over all rows: %s; block (k,k): %s; value M^-1(range_k, dual_k): %s; published as BlockedDiscreteOperator: %s; returns range_map * weak_form: %s" % (full, tgt_ok, val_ok, pub_ok, ret_ok)
+    r.check(okb, "BlockedOperatorBase.strong_form", BL, "BlockedOperatorBase.strong_form", fn.lineno, "blocked strong form", whyb)
     # strong form = M^-1(range, dual) * weak form
     fn = bm.fn("BoundaryOperator.strong_form")
     defs = roles.Defs(fn)
@@ -162,6 +205,8 @@ def guards(ctx):
     is_super = lambda n: isinstance(n, ast.Call) and unparse(n.func).endswith("__init__")
     check(BO, "_SumBoundaryOperator.__init__", is_super, [("op1.domain", "op2.domain"), ("op1.range", "op2.range"), ("op1.dual_to_range", "op2.dual_to_range")], "constructing the sum")
     check(BO, "_ProductBoundaryOperator.__init__", is_super, [("op2.range", "op1.domain")], "constructing the product")
+    check(BL, "SumBlockedOperator.__init__", is_super, [("op1.domain_spaces", "op2.domain_spaces"), ("op1.range_spaces", "op2.range_spaces"), ("op1.dual_to_range_spaces", "op2.dual_to_range_spaces")], "constructing the blocked sum")
+    check(BL, "ProductBlockedOperator.__init__", is_super, [("op2.range_spaces", "op1.domain_spaces")], "constructing the blocked product")
     # operator x grid function: guard inside the isinstance branch
     fn = bm.fn("BoundaryOperator.__mul__")
     okm = False
@@ -249,9 +294,64 @@ def packing(ctx):
         raise AnalysisError("packing rule found %d slicing sites" % n)
 
 
+def block_matvec(ctx):
+    """BlockedDiscreteOperator._matvec/_matmat: res[rows of block row i] += op[i, j] . x[columns of block column j]."""
+    r = ctx.rule("BLOCK-MATVEC", "blocked discrete operator: block (i, j) acts on the j-th column slice of x and accumulates into the i-th row slice of the result; offsets are running sums of the block sizes", 2)
+    m = ctx.repo.mod(BL)
+    for meth in ("_matvec", "_matmat"):
+        fn = m.fn("BlockedDiscreteOperator." + meth)
+        defs = roles.Defs(fn)
+        X = arg_names(fn)[1]
+        S = roles.stores(fn.body, defs, lv=False)
+        rets = [s for s in S if s.op == "return" and isinstance(s.vnode, ast.Name) and not s.guards]
+        ok, why = False, "does not return one local result array"
+        two = meth == "_matmat"
+        if len(rets) == 1:
+            R = rets[0].vnode.id
+            acc = [s for s in S if s.op == "Add=" and len(s.loops) == 2]
+            cnt = {}
+            for s in S:
+                if s.op == "Add=" and isinstance(s.tnode, ast.Name) and not s.guards:
+                    cnt.setdefault(len(s.loops), []).append(s)
+            why = "loop nest / running offsets not recognised"
+            accs = [s for s in acc if not isinstance(s.tnode, ast.Name) or s.tnode.id not in [c.target for cs in cnt.values() for c in cs if isinstance(c.vnode, ast.Subscript)]]
+            loops2 = {s.loops for s in acc}
+            if len(loops2) == 1:
+                lI, lJ = next(iter(loops2))
+                if isinstance(lI.target, ast.Name) and isinstance(lJ.target, ast.Name) and roles.canon(lI.iter, defs) == "range(self._ndims[0])" and roles.canon(lJ.iter, defs) == "range(self._ndims[1])":
+                    I, J = lI.target.id, lJ.target.id
+                    ex = lambda src, line, **kw: roles.expect(src, defs, line, lv=False, I=I, J=J, X=X, R=R, **kw)
+                    rd = [s for s in S if s.op == "Add=" and isinstance(s.tnode, ast.Name) and s.loops == (lI,) and not s.guards and s.value == ex("self._rows[I]", s.node.lineno)]
+                    cd = [s for s in S if s.op == "Add=" and isinstance(s.tnode, ast.Name) and s.loops == (lI, lJ) and not s.guards and s.value == ex("self._cols[J]", s.node.lineno)]
+                    if len(rd) == 1 and len(cd) == 1:
+                        RD, CD = rd[0].target, cd[0].target
+                        rd0 = any(isinstance(st, ast.Assign) and unparse(st.targets[0]) == RD and isinstance(st.value, ast.Constant) and st.value.value == 0 and st.lineno < lI.lineno for st in fn.body)
+                        cd0 = [s for s in S if s.op == "=" and s.target == CD and s.value == "0" and s.loops == (lI,) and s.node.lineno < lJ.lineno]
+                        views = [s for s in S if s.op == "=" and isinstance(s.tnode, ast.Name) and s.loops == (lI,) and s.value == ex("R[RD:RD + self._rows[I], :]" if two else "R[RD:RD + self._rows[I]]", s.node.lineno, RD=RD)]
+                        xs = [s for s in S if s.op == "=" and isinstance(s.tnode, ast.Name) and s.loops == (lI, lJ) and s.value == ex("X[CD:CD + self._cols[J], :]" if two else "X[CD:CD + self._cols[J]]", s.node.lineno, CD=CD)]
+                        why = "row offset starts at 0: %s; column offset reset per block row: %s; row view: %d; column slice: %d" % (rd0, bool(cd0), len(views), len(xs))
+                        if rd0 and len(cd0) == 1 and len(views) == 1 and len(xs) == 1:
+                            LV, LX = views[0].target, xs[0].target
+                            sums = [s for s in S if s.op == "Add=" and s.loops == (lI, lJ) and (unparse(s.tnode) == LV or unparse(s.tnode) == LV + "[:]")]
+                            re, im, F = NC.op("Re"), NC.op("Im"), NC.op("F")
+                            full = re + NC.scalar("i") * im
+                            leaves = {LX: full, "_np.real(%s)" % LX: re, "_np.imag(%s)" % LX: im, "self._operators[%s, %s]" % (I, J): F}
+                            good = bool(sums)
+                            for s_ in sums:
+                                try:
+                                    good = good and NCEval(leaves, morphisms=("dot",)).ev(s_.vnode) == F * full
+                                except AnalysisError:
+                                    good = False
+                            order = bool(sums) and all(s_.node.lineno < cd[0].node.lineno for s_ in sums) and xs[0].node.lineno < min(s_.node.lineno for s_ in sums) and rd[0].node.lineno > lJ.lineno
+                            ok = good and order
+                            why = "every accumulation is op[i,j] applied to the column slice (complex split included): %s; offsets advance after use: %s" % (good, order)
+        r.check(ok, "BlockedDiscreteOperator." + meth, BL, "BlockedDiscreteOperator." + meth, fn.lineno, "blocked %s" % meth, why)
+
+
 def run(ctx):
     attr_rules(ctx)
     homomorphism(ctx)
     guards(ctx)
     def_assign(ctx)
     packing(ctx)
+    block_matvec(ctx)
